@@ -45,7 +45,7 @@ def child_main(cfg_json: str, backend: str, mw: str, storage_dir: str):
     lab = labtech.Lab(storage=storage, runner_backend=spy, continue_on_failure=cfg.cof, notebook=False, context=ctx,
                       max_workers=(None if mw == 'None' else int(mw)))
     try:
-        res = lab.run_tasks(req, bust_cache=cfg.bust_cache, disable_progress=True, disable_top=True)
+        res = e2.call_run(lab, req, cfg, disable_progress=True, disable_top=True)
         outcome = ('return', res)
     except BaseException as e:  # noqa
         outcome = ('raise', e)
